@@ -172,7 +172,8 @@ def recount_case(c, out, ordered=None):
             return None, f"leaf synteny of {c.O.name[i]} differs from the input"
     if ordered:
         fams = set(g for s in c.leafsyn.values() for g in s)
-        if c.O.children[0] and (sorted(syn[0]) != sorted(fams) or len(syn[0]) != len(fams)):
+        want_root = sorted(c.rootsyn) if c.rootsyn is not None else sorted(fams)     # a prescribed root may hold families no leaf carries
+        if c.O.children[0] and (sorted(syn[0]) != want_root or len(syn[0]) != len(want_root)):
             return None, "root does not hold every family exactly once"
         if c.rootsyn is not None and list(syn[0]) != list(c.rootsyn):
             return None, "root order differs from the prescribed one"
